@@ -134,52 +134,74 @@ def keep_rule(ctx, rep, rid="KEEP"):
                               % (b.name, ", ".join(kinds[:12]) + (" ..." if len(kinds) > 12 else "")), site(b, pt))
             else:
                 rep.ok(rid, "%s: every child taken at %s is formatted unless it is whitespace" % (fn, site(b, pt).rsplit("/", 1)[-1]))
-    # gen_node's token arm
+    # gen_node's token arm (the push may sit in a helper that gen_node hands the token to)
     gn = [b for b in fmt_bodies(lib) if b.name == "backend::format::gen_node"]
     if not gn:
         raise MissingAnchor("backend::format::gen_node not found")
+    by_name = {b.name: b for b in fmt_bodies(lib)}
+    memo = {}
+
+    def dropped_kinds(b, depth=0, text_params=frozenset()):
+        """token kinds for which some path through `b` returns without pushing the token's text (`text_params`: parameters that
+        carry the token's text at the call site under analysis)"""
+        mkey = (b.name, text_params)
+        if mkey in memo:
+            return memo[mkey]
+        memo[mkey] = set(ALLK)
+        pr = P(b)
+
+        def is_text(e):
+            return any((x[0] == "call" and x[1].endswith("Cst::span_text")) or (x[0] == "param" and x[1] in text_params) for x in walk(e))
+
+        def stmt2(state, p, it):
+            if isinstance(it, dict) and it.get("t") == "call":
+                ce = pr.call_expr(it)
+                if ce[1].endswith("PrintItems::push_string") and is_text(ce[2][1]):
+                    return frozenset((True, k) for _, k in state)
+                callee = by_name.get(ce[1]) or by_name.get("backend::format::" + ce[1].rsplit("::", 1)[-1])
+                if callee is not None and callee.name != "backend::format::gen_node" and callee.name != b.name and depth < 2 \
+                        and any("lexer::Token" in (callee.local_ty(l) or "") for l in range(1, callee.argc + 1)):
+                    dk = dropped_kinds(callee, depth + 1, frozenset(i + 1 for i, a in enumerate(ce[2]) if is_text(a)))
+                    return frozenset(((True if k not in dk else kept), k) for kept, k in state)
+            return state
+
+        def edge2(state, src, tgt, lab):
+            tt = b.blocks[src]["t"]
+            if tt["t"] != "switch":
+                return state
+            e = pr.operand(tt["d"])
+            if e[0] != "discr":
+                return state
+            if e[2].endswith("parser::Node"):
+                if lab[0] == "v":
+                    vn = node_names.get(lab[1])
+                    f = (lambda k: k == "Rule") if vn == "Rule" else (lambda k: k != "Rule")
+                else:
+                    seen = {node_names.get(v) for v in lab[1]}
+                    f = lambda k: ("Rule" if k == "Rule" else "Token") not in seen
+            elif e[2].endswith("lexer::Token"):
+                if lab[0] == "v":
+                    vn = tok_names.get(lab[1])
+                    f = lambda k: k == vn
+                else:
+                    seen = {tok_names.get(v) for v in lab[1]}
+                    f = lambda k: k not in seen and k != "Rule"
+            else:
+                return state
+            r = frozenset(x for x in state if f(x[1]))
+            return r if r else None
+
+        df = flow.Dataflow(b, frozenset((False, k) for k in ALLK), stmt2, edge2, lambda x, y: x | y).run()
+        bad = set()
+        for bb in b.exits():
+            for kept, k in (df.OUT.get(bb) or ()):
+                if not kept:
+                    bad.add(k)
+        memo[mkey] = bad
+        return bad
+
     b = gn[0]
-    pr = P(b)
-
-    def stmt2(state, p, it):
-        if isinstance(it, dict) and it.get("t") == "call":
-            ce = pr.call_expr(it)
-            if ce[1].endswith("PrintItems::push_string") and any(x[0] == "call" and x[1].endswith("Cst::span_text") for x in walk(ce[2][1])):
-                return frozenset((True, k) for _, k in state)
-        return state
-
-    def edge2(state, src, tgt, lab):
-        tt = b.blocks[src]["t"]
-        if tt["t"] != "switch":
-            return state
-        e = pr.operand(tt["d"])
-        if e[0] != "discr":
-            return state
-        if e[2].endswith("parser::Node"):
-            if lab[0] == "v":
-                vn = node_names.get(lab[1])
-                f = (lambda k: k == "Rule") if vn == "Rule" else (lambda k: k != "Rule")
-            else:
-                seen = {node_names.get(v) for v in lab[1]}
-                f = lambda k: ("Rule" if k == "Rule" else "Token") not in seen
-        elif e[2].endswith("lexer::Token"):
-            if lab[0] == "v":
-                vn = tok_names.get(lab[1])
-                f = lambda k: k == vn
-            else:
-                seen = {tok_names.get(v) for v in lab[1]}
-                f = lambda k: k not in seen and k != "Rule"
-        else:
-            return state
-        r = frozenset(x for x in state if f(x[1]))
-        return r if r else None
-
-    df = flow.Dataflow(b, frozenset((False, k) for k in ALLK), stmt2, edge2, lambda x, y: x | y).run()
-    bad = set()
-    for bb in b.exits():
-        for kept, k in (df.OUT.get(bb) or ()):
-            if not kept and k not in ("Whitespace", "Rule"):
-                bad.add(k)
+    bad = {k for k in dropped_kinds(b) if k not in ("Whitespace", "Rule")}
     if bad:
         rep.violation(rid, "backend::format::gen_node|token-arm|%s" % ",".join(sorted(bad))[:80], "gen_node returns without pushing the text of tokens of kind %s: "
                       "they would vanish from the formatted file" % ", ".join(sorted(bad)), site(b, (0, 0)))
